@@ -8,7 +8,7 @@ import CSD.Lemmas.HashBlocks
 import CSD.Lemmas.HashRP
 import CSD.Lemmas.HashRPF
 import CSD.Lemmas.FM11
-import CSD.Lemmas.RPFC4
+import CSD.Lemmas.RPFC6
 
 namespace CSD.Props.C02
 open CSD CSD.PFC
@@ -166,6 +166,12 @@ theorem fm_models_match_source_text :
 /-- `extract` of an ID outside `[1, n]` is NULL; the streams are not touched. -/
 theorem rpfc_extract_bad_id {S : List Str} {d : RPFC.D} (hst : RPFC.Stores S d) (i : Nat)
     (h : i = 0 ∨ i > S.length) : RPFC.extract d i = some none := RPFC.extract_bad_id hst i h
+
+/-- A NUL-free query that is not a member is answered 0 by RPFC, whatever grammar stores the buckets. -/
+theorem rpfc_locate_absent {S : List Str} {d : RPFC.D} (hst : RPFC.Stores S d) (hv : validDict S = true)
+    (q : Str) (hq : nulFree q) (habs : q ∉ S) : RPFC.locate d q = some 0 := by
+  obtain ⟨hne, hn, hs, _⟩ := validDict_facts hv
+  rw [RPFC.locate_stores hst q hne hn hq hs, Spec.locate_not_mem habs]
 
 /-- The RPFC models were written against the current text of the C++ functions they mirror. -/
 theorem rpfc_models_match_source_text :
